@@ -740,6 +740,7 @@ func (p c07) Run(w *mon.Worker, idx int) mon.Result {
 		return c07LineCase(w, r)
 	}
 	o := gen.YDefault()
+	o.NoTaggedEmpty = true // (comment ownership around empty tagged scalars is yaml.v3's own business: C05 has them)
 	o.RootScalars, o.EmptyDocs = false, false
 	o.MaxDocs = 1
 	if r.IntN(8) == 0 {
